@@ -5,7 +5,10 @@ package ecs
 // Contracts for cache.go (registered filters).
 
 //@ pred cacheEntriesInv(c *cache) :=
-//@   forall i int :: __trigger(c.filters[i].tables.indices) && (0 <= i && i < len(c.filters) ==> tidsInv(&c.filters[i].tables))
+//@      (forall i int :: __trigger(c.filters[i].tables.indices) && (0 <= i && i < len(c.filters) ==> tidsInv(&c.filters[i].tables)))
+//@   && (forall i int, j int :: 0 <= i && i < j && j < len(c.filters) ==>
+//@         !__same(c.filters[i].tables.indices, c.filters[j].tables.indices)
+//@         && (len(c.filters[i].tables.tables) > 0 && len(c.filters[j].tables.tables) > 0 ==> !__same(&c.filters[i].tables.tables[0], &c.filters[j].tables.tables[0])))
 
 //@ func (*cache).removeTable
 //@   serves C05 C15 C04
